@@ -39,6 +39,12 @@ CHECKS = {
  "C11": ("sampler", "stratified generation of real inputs between adjacent grid points per float field, oracle = neighbour membership + half-step bound with derived float slack + monotonicity (hook)",
          "Generated-input exploration over all float-typed fields: grid indexes at range ends, zero, powers of two and random; 16 interpolation points per interval including both sides of the half step. Tolerance derived from the rounding steps, not tuned.",
          "needs the hook; grid = decoder image of consecutive patterns", "§3 C11"),
+ "C02": ("generators+enumerator", "structure-aware frame generation (golden, the crate's generator, synthesiser incl. hostile MSM/bias/text/count structures, havoc mutation) with a totality/finiteness oracle in catch_unwind, both build profiles",
+         "Generated-input exploration of the decoder for every supported message number and sampled unsupported ones, plus raw multi-frame streams; run in the optimised and the optimised+overflow-checks profile. A watchdog timeout is inconclusive (exit 2), never a violation.",
+         "frames are framed by the harness with its own CRC; the crate's generator is only a seed source", "§3 C02"),
+ "C09": ("proptest+enumerator", "property-based testing (proptest recipes over the serde value tree, shrinking) + systematic single-leaf extreme-value sweep + hostile typed constructors, oracle = independent frame parser in catch_unwind, both build profiles",
+         "Generated-input exploration of the encoder over all supported types: type-directed mutations reach out-of-range, NaN/inf, full lists, inconsistent satellite/signal sets; every numeric leaf of two bases per type is set to 15 extreme values; both build profiles.",
+         "all values constructed through public fields/constructors (serde is the construction vehicle only)", "§3 C09"),
 }
 PENDING = {}
 def load_pending():
